@@ -272,6 +272,8 @@ func writeEvidence(id, tier string, seed int, cfg *CheckCfg, ld *Loaded, results
 		"queries": map[string]any{
 			"total": atomic.LoadInt64(&gStats.Queries), "sat": gStats.Sat, "unsat": gStats.Unsat, "unknown": gStats.Unknown,
 			"errors": gStats.Errors, "fallback_runs": gStats.Fallback, "fallback_backends": gBackendUse.m,
+			"decided_by_enumeration": atomic.LoadInt64(&gStats.Enumerated),
+			"decided_by_enumeration_note": "branch-feasibility queries over at most 8 free input bits are decided by complete enumeration of the assignments with the term evaluator (exact) and are counted here, not in total/sat/unsat (those are SMT queries); assertion queries always go to the SMT solver; per harness, solver_checks counts the assertions that were symbolic and were discharged by SMT, asserts counts all assertion evaluations (the rest were constants on their path)",
 			"primary": "z3-new 5.1.0 -in (one self-contained push/pop query per decision, sliced to the variables involved)", "fallback": "fresh z3 5.1.0 process, z3 4.8.12, cvc5 1.0 (QF_BV), cvc5 --solve-bv-as-int=sum first for mul/div queries",
 		},
 		"solver_s": float64(gStats.Nanos) / 1e9,
